@@ -7,6 +7,10 @@
 //! E2: the bulk builders are run on every record list of the stated space; record i must equal input i, ids
 //!     `>= n` must be absent; `load(save(s))` must answer like `s`.
 //!
+//! Coverage audit: `register_e1_audit` (inherent mutators as `Op::Extra`, wrapper stacks, non-empty start states,
+//!     special keys, never-instantiated presets), `register_builder_histories` (E1 over the calls of the incremental
+//!     builders), appended E2 pattern kinds / variants (`AUDIT_PATTERN_KINDS`, `zo_config`).
+//!
 //! Conditions carried from the statement: `put`/`put_batch`/`remove` returning `Err` = refused, the model is
 //! unchanged (stores that do not support removal / some record shapes are not penalised); operations a store
 //! does not offer are skipped; an id may be handed out again once its previous holder is no longer live.
@@ -127,6 +131,26 @@ pub trait StoreLike {
     fn reopen(self: Box<Self>, _dir: &Path) -> Option<R<Box<dyn StoreLike>>> {
         None
     }
+    /// `IterableBlobStore::iter_blobs` (or the store's own equivalent); `None` = not offered
+    fn iter_blobs(&mut self) -> Option<R<Vec<(u32, Vec<u8>)>>> {
+        None
+    }
+    /// a mutator outside the BlobStore traits, by name (`Op::Extra`); `None` = this store does not offer it
+    fn extra(&mut self, _name: &str) -> Option<R<Effect>> {
+        None
+    }
+    /// `Clone`, where offered: the history continues on the clone and the original is dropped
+    fn clone_box(&mut self) -> Option<Box<dyn StoreLike>> {
+        None
+    }
+}
+
+/// what a named extra mutator does to the set of live records
+#[derive(Clone, Copy, PartialEq, Eq, Debug)]
+pub enum Effect {
+    Unchanged,
+    /// every record is gone (MemoryBlobStore::clear)
+    Cleared,
 }
 
 macro_rules! core_methods {
@@ -172,6 +196,9 @@ macro_rules! iter_methods {
         fn iter_ids(&mut self) -> Option<Vec<u32>> {
             Some(IterableBlobStore::iter_ids(&*self).collect())
         }
+        fn iter_blobs(&mut self) -> Option<R<Vec<(u32, Vec<u8>)>>> {
+            Some(IterableBlobStore::iter_blobs(&*self).collect::<Result<Vec<_>, _>>().map_err(|e| e.to_string()))
+        }
     };
 }
 macro_rules! serde_reopen {
@@ -192,6 +219,24 @@ impl StoreLike for MemoryBlobStore {
     batch_methods!();
     iter_methods!();
     serde_reopen!(MemoryBlobStore);
+    fn extra(&mut self, name: &str) -> Option<R<Effect>> {
+        match name {
+            "Clear" => {
+                self.clear();
+                Some(Ok(Effect::Cleared))
+            }
+            "ShrinkToFit" => {
+                self.reserve(64);
+                self.shrink_to_fit();
+                Some(Ok(Effect::Unchanged))
+            }
+            "Flush" => Some(BlobStore::flush(self).map(|_| Effect::Unchanged).map_err(|e| e.to_string())),
+            _ => None,
+        }
+    }
+    fn clone_box(&mut self) -> Option<Box<dyn StoreLike>> {
+        Some(Box::new(self.clone()))
+    }
 }
 impl StoreLike for PlainBlobStore {
     core_methods!();
@@ -215,8 +260,83 @@ impl StoreLike for ZeroLengthBlobStore {
     iter_methods!();
     serde_reopen!(ZeroLengthBlobStore);
 }
+/// second training corpus of the `Retrain` op: other symbol frequencies than every first corpus (other codes)
+const RETRAIN_CORPUS: &[u8] = b"zzzzzzzzzzzzzzzzzzzzzzzzbbbbbbbba";
 impl StoreLike for HuffmanBlobStore<MemoryBlobStore> {
     core_methods!();
+    fn extra(&mut self, name: &str) -> Option<R<Effect>> {
+        match name {
+            // add training data and rebuild the tree: records already stored must keep decoding
+            "Retrain" => {
+                self.add_training_data(RETRAIN_CORPUS);
+                Some(self.build_tree().map(|_| Effect::Unchanged).map_err(|e| e.to_string()))
+            }
+            _ => None,
+        }
+    }
+}
+impl StoreLike for HuffmanBlobStore<ZstdBlobStore<MemoryBlobStore>> {
+    core_methods!();
+    fn extra(&mut self, name: &str) -> Option<R<Effect>> {
+        match name {
+            "Retrain" => {
+                self.add_training_data(RETRAIN_CORPUS);
+                Some(self.build_tree().map(|_| Effect::Unchanged).map_err(|e| e.to_string()))
+            }
+            _ => None,
+        }
+    }
+}
+impl StoreLike for ZstdBlobStore<HuffmanBlobStore<MemoryBlobStore>> {
+    core_methods!();
+}
+impl StoreLike for ZstdBlobStore<ZstdBlobStore<MemoryBlobStore>> {
+    core_methods!();
+    batch_methods!();
+    iter_methods!();
+    serde_reopen!(ZstdBlobStore<ZstdBlobStore<MemoryBlobStore>>);
+}
+impl StoreLike for ZstdBlobStore<PlainBlobStore> {
+    core_methods!();
+    batch_methods!();
+    iter_methods!();
+    fn reopen(self: Box<Self>, _dir: &Path) -> Option<R<Box<dyn StoreLike>>> {
+        let level = self.compression_level();
+        let dir: PathBuf = self.inner().base_dir().to_path_buf();
+        drop(self);
+        Some(PlainBlobStore::new(&dir).map(|s| Box::new(ZstdBlobStore::new(s, level)) as Box<dyn StoreLike>).map_err(|e| e.to_string()))
+    }
+}
+macro_rules! cached_extras {
+    () => {
+        fn extra(&mut self, name: &str) -> Option<R<Effect>> {
+            match name {
+                "DisableCache" => {
+                    self.disable_cache();
+                    Some(Ok(Effect::Unchanged))
+                }
+                "EnableCache" => {
+                    self.enable_cache();
+                    Some(Ok(Effect::Unchanged))
+                }
+                "SetWriteBack" => {
+                    self.set_write_strategy(CacheWriteStrategy::WriteBack);
+                    Some(Ok(Effect::Unchanged))
+                }
+                "SetWriteAround" => {
+                    self.set_write_strategy(CacheWriteStrategy::WriteAround);
+                    Some(Ok(Effect::Unchanged))
+                }
+                "FlushCache" => Some(CachedBlobStore::flush(&*self).map(|_| Effect::Unchanged).map_err(|e| e.to_string())),
+                "Prefetch" => Some(self.prefetch_range(0, 8192).map(|_| Effect::Unchanged).map_err(|e| e.to_string())),
+                _ => None,
+            }
+        }
+    };
+}
+impl StoreLike for CachedBlobStore<ZstdBlobStore<MemoryBlobStore>> {
+    core_methods!();
+    cached_extras!();
 }
 impl StoreLike for RansBlobStore<MemoryBlobStore> {
     core_methods!();
@@ -226,12 +346,23 @@ impl StoreLike for DictionaryBlobStore<MemoryBlobStore> {
 }
 impl StoreLike for CachedBlobStore<MemoryBlobStore> {
     core_methods!();
+    cached_extras!();
 }
 impl StoreLike for DictZipBlobStore {
     core_methods!();
     batch_methods!();
     fn iter_ids(&mut self) -> Option<Vec<u32>> {
         Some(self.iter_ids_vec())
+    }
+    fn iter_blobs(&mut self) -> Option<R<Vec<(u32, Vec<u8>)>>> {
+        Some(self.iter_blobs_vec().map_err(|e| e.to_string()))
+    }
+    fn extra(&mut self, name: &str) -> Option<R<Effect>> {
+        match name {
+            // clears the decompression cache and validates: no record may change
+            "Optimize" => Some(self.optimize().map(|_| Effect::Unchanged).map_err(|e| e.to_string())),
+            _ => None,
+        }
     }
 }
 impl StoreLike for SimpleZipBlobStore {
@@ -262,6 +393,14 @@ impl StoreLike for Trie {
     }
     fn get_by_prefix(&mut self, p: &[u8]) -> Option<R<Vec<(Vec<u8>, Vec<u8>)>>> {
         Some(Trie::get_by_prefix(self, p).map_err(|e| e.to_string()))
+    }
+    fn extra(&mut self, name: &str) -> Option<R<Effect>> {
+        match name {
+            // builder -> read-only store: later writes/removes are refused, every read must keep answering
+            "Finalize" => Some(self.finalize().map(|_| Effect::Unchanged).map_err(|e| e.to_string())),
+            "Flush" => Some(BlobStore::flush(self).map(|_| Effect::Unchanged).map_err(|e| e.to_string())),
+            _ => None,
+        }
     }
 }
 
@@ -351,6 +490,22 @@ fn observe_store(store: &mut dyn StoreLike, live: &BTreeMap<u32, Vec<u8>>, probe
             return Err(failc(&c("iter_ids"), "set_differs", format!("iter_ids() = {:?}, live ids {:?}", ids, want)));
         }
     }
+    // iter_blobs: every live record exactly once, with its bytes (only for stores with few records: it reads everything again)
+    if live.len() <= 64 {
+        if let Some(r) = store.iter_blobs() {
+            match r {
+                Ok(mut pairs) => {
+                    pairs.sort();
+                    let want: Vec<(u32, Vec<u8>)> = live.iter().map(|(k, v)| (*k, v.clone())).collect();
+                    if pairs != want {
+                        let class = if pairs.len() != want.len() { "wrong_count" } else { "wrong_entry" };
+                        return Err(failc(&c("iter_blobs"), class, format!("iter_blobs() yields {} (id, record) pairs {:?}, live records {:?}", pairs.len(), pairs.iter().map(|(k, v)| (*k, brief(v))).collect::<Vec<_>>(), want.iter().map(|(k, v)| (*k, brief(v))).collect::<Vec<_>>())));
+                    }
+                }
+                Err(e) => return Err(failc(&c("iter_blobs"), "err", format!("iter_blobs() = Err({e}) with {} live records", live.len()))),
+            }
+        }
+    }
     Ok(())
 }
 
@@ -369,11 +524,19 @@ pub enum Op {
     RemoveBatch(usize, usize),
     /// save → load (serde round trip / reopen the directory), then continue on the loaded store
     Reopen,
+    /// a mutator outside the BlobStore traits, by name (see `StoreLike::extra`; "Clone" = continue on a clone)
+    Extra(&'static str),
 }
 
-const KEYS: [&[u8]; 3] = [b"k", b"kx", b"m"];
+/// key table of `PutKey`; indices 0..3 are the original alphabet, the rest was appended by the coverage audit:
+/// the empty key, two keys that share a prefix THROUGH a NUL byte, a key with 0xff, a long key (> 64 bytes:
+/// longer than the Patricia max_path_length of every preset)
+const KEYS: [&[u8]; 8] = [b"k", b"kx", b"m", b"", b"k\0", b"k\0x", b"k\xff", LONG_KEY];
+const LONG_KEY: &[u8] = b"k/a-long-key-with-more-than-sixty-four-bytes-so-that-a-compressed-path-must-be-split-0123456789";
 const KEY_PROBES: [&[u8]; 5] = [b"k", b"kx", b"m", b"", b"q"];
 const PREFIX_PROBES: [&[u8]; 4] = [b"", b"k", b"kx", b"q"];
+const KEY_PROBES2: [&[u8]; 8] = [b"k", b"", b"k\0", b"k\0x", b"k\xff", LONG_KEY, b"q", b"k\0y"];
+const PREFIX_PROBES2: [&[u8]; 6] = [b"", b"k", b"k\0", b"k\xff", b"k/a-long", b"q"];
 
 impl fmt::Debug for Op {
     fn fmt(&self, f: &mut fmt::Formatter<'_>) -> fmt::Result {
@@ -389,10 +552,19 @@ impl fmt::Debug for Op {
                 }
                 write!(f, ")")
             }
-            Op::PutKey(k, r) => write!(f, "PutKey({},{:?})", String::from_utf8_lossy(KEYS[*k as usize]), r),
+            Op::PutKey(k, r) => {
+                // the original keys print as before ("PutKey(k,ab)"); the appended ones escaped ("PutKey(k\\x00,ab)")
+                let key = KEYS[*k as usize];
+                if key.len() > 16 {
+                    write!(f, "PutKey(<long:{}>,{:?})", key.len(), r)
+                } else {
+                    write!(f, "PutKey({},{:?})", key.escape_ascii(), r)
+                }
+            }
             Op::Remove(j) => write!(f, "Remove(#{j})"),
             Op::RemoveBatch(j, k) => write!(f, "RemoveBatch(#{j},#{k})"),
             Op::Reopen => write!(f, "Reopen"),
+            Op::Extra(name) => write!(f, "{name}"),
         }
     }
 }
@@ -462,6 +634,14 @@ pub struct StoreSpec {
     pub batches: Vec<Vec<Rec>>,
     /// number of keys of `KEYS` used by `PutKey` (0 = no keyed puts)
     pub nkeys: u8,
+    /// indices into `KEYS` used by `PutKey` (`keyed(n, ..)` = the first n)
+    pub key_set: Vec<u8>,
+    pub key_probes: Vec<&'static [u8]>,
+    pub prefix_probes: Vec<&'static [u8]>,
+    /// named extra mutators (`Op::Extra`), enabled in every state
+    pub extras: Vec<&'static str>,
+    /// scripted prefix: the model of the start state, where `make` does not return an empty store
+    pub start: Option<fn() -> Vec<(u32, Vec<u8>)>>,
     pub key_records: Vec<Rec>,
     pub removes: usize,
     pub remove_batch: bool,
@@ -478,6 +658,11 @@ impl StoreSpec {
             records: vec![E, A, ZZ, A64, C300],
             batches: vec![vec![AB, A64]],
             nkeys: 0,
+            key_set: vec![],
+            key_probes: KEY_PROBES.to_vec(),
+            prefix_probes: PREFIX_PROBES.to_vec(),
+            extras: vec![],
+            start: None,
             key_records: vec![],
             removes: 3,
             remove_batch: false,
@@ -501,7 +686,29 @@ impl StoreSpec {
     }
     fn keyed(mut self, nkeys: u8, recs: &[Rec]) -> Self {
         self.nkeys = nkeys;
+        self.key_set = (0..nkeys).collect();
         self.key_records = recs.to_vec();
+        self
+    }
+    /// keyed puts over an explicit subset of `KEYS`, with the second probe set
+    fn keyed_set(mut self, keys: &[u8], recs: &[Rec]) -> Self {
+        self.nkeys = keys.len() as u8;
+        self.key_set = keys.to_vec();
+        self.key_records = recs.to_vec();
+        self.key_probes = KEY_PROBES2.to_vec();
+        self.prefix_probes = PREFIX_PROBES2.to_vec();
+        self
+    }
+    fn extras(mut self, names: &[&'static str]) -> Self {
+        self.extras = names.to_vec();
+        self
+    }
+    fn removes(mut self, n: usize) -> Self {
+        self.removes = n;
+        self
+    }
+    fn start(mut self, f: fn() -> Vec<(u32, Vec<u8>)>) -> Self {
+        self.start = Some(f);
         self
     }
     fn remove_batch(mut self) -> Self {
@@ -526,28 +733,36 @@ impl SeqSpec for StoreSpec {
     }
     fn bound(&self, tier: Tier) -> String {
         format!(
-            "all histories of <= {} mutators from {{put(r) r in {:?}; put_batch(b) b in {:?}; put_with_key(k,r) k in first {} of [k,kx,m], r in {:?}; remove(j-th most recent id) j<{}{}{}}}; observers after every step on ids 0..=max_issued+1 and u32::MAX: get, contains, size, len, is_empty, get_batch, iter_ids (+ get_by_key/contains_key/get_by_prefix where offered)",
+            "{}all histories of <= {} mutators from {{put(r) r in {:?}; put_batch(b) b in {:?}; put_with_key(k,r) k in {:?}, r in {:?}; remove(j-th most recent id) j<{}{}{}{}}}; observers after every step on ids 0..=max_issued+1 and u32::MAX: get, contains, size, len, is_empty, get_batch, iter_ids, iter_blobs (+ get_by_key/contains_key/get_by_prefix where offered)",
+            if self.start.is_some() { "start state: a store that already holds records (see subject name); " } else { "" },
             self.depth(tier),
             self.records,
             self.batches,
-            self.nkeys,
+            self.key_set.iter().map(|k| KEYS[*k as usize].escape_ascii().to_string()).collect::<Vec<_>>(),
             self.key_records,
             self.removes,
             if self.remove_batch { "; remove_batch(#0,#1)" } else { "" },
             if self.reopen { "; save->load" } else { "" },
+            if self.extras.is_empty() { String::new() } else { format!("; {:?}", self.extras) },
         )
     }
     fn init(&self, scratch: &Path) -> Result<St, Fail> {
         let dir = scratch.join(format!("c03-{:016x}", h64(&self.name)));
         let store = (self.make)(&dir).map_err(|e| Fail::new("construct", e))?;
-        Ok(St { store: Some(store), model: Model::default(), dir })
+        let mut model = Model::default();
+        if let Some(f) = self.start {
+            for (id, d) in f() {
+                model.issue(id, d, "start state")?;
+            }
+        }
+        Ok(St { store: Some(store), model, dir })
     }
     fn ops(&self, st: &St) -> Vec<Op> {
         let mut v = Vec::new();
         for &r in &self.records {
             v.push(Op::Put(r));
         }
-        for k in 0..self.nkeys {
+        for &k in &self.key_set {
             for &r in &self.key_records {
                 v.push(Op::PutKey(k, r));
             }
@@ -563,6 +778,9 @@ impl SeqSpec for StoreSpec {
         }
         if self.reopen {
             v.push(Op::Reopen);
+        }
+        for &e in &self.extras {
+            v.push(Op::Extra(e));
         }
         v
     }
@@ -634,6 +852,21 @@ impl SeqSpec for StoreSpec {
                     Some(Err(e)) => return Err(failc("save_load", "load_err", format!("save->load of a store holding {} live records failed: {e}", st.model.live.len()))),
                 }
             }
+            Op::Extra("Clone") => match store.clone_box() {
+                Some(c) => st.store = Some(c),
+                None => return Err(Fail::new("harness", "Clone enabled for a store that does not offer it")),
+            },
+            Op::Extra(name) => match store.extra(name) {
+                None => return Err(Fail::new("harness", format!("{name} enabled for a store that does not offer it"))),
+                // Err = refused, nothing may have changed
+                Some(Err(_)) | Some(Ok(Effect::Unchanged)) => {}
+                Some(Ok(Effect::Cleared)) => {
+                    let ids: Vec<u32> = st.model.live.keys().copied().collect();
+                    for id in ids {
+                        st.model.removed(id);
+                    }
+                }
+            },
         }
         Ok(())
     }
@@ -650,7 +883,7 @@ impl SeqSpec for StoreSpec {
         if self.nkeys > 0 {
             let mut unambiguous = true;
             let mut expect: BTreeMap<Vec<u8>, Option<Vec<u8>>> = BTreeMap::new();
-            for k in KEY_PROBES {
+            for &k in &self.key_probes {
                 let e = match st.model.keys.get(k) {
                     None => Some(None),
                     Some((ids, any_removed)) => {
@@ -695,7 +928,7 @@ impl SeqSpec for StoreSpec {
                 }
             }
             if unambiguous {
-                for p in PREFIX_PROBES {
+                for &p in &self.prefix_probes {
                     if let Some(r) = store.get_by_prefix(p) {
                         let want: Vec<(Vec<u8>, Vec<u8>)> =
                             expect.iter().filter(|(k, v)| k.starts_with(p) && v.is_some()).map(|(k, v)| (k.clone(), v.clone().unwrap())).collect();
@@ -815,7 +1048,8 @@ fn register_e1(reg: &mut zverif::Registry) {
     }
     reg.add(Seq(StoreSpec::new("ZeroLengthBlobStore", |_| Ok(boxed(ZeroLengthBlobStore::new())))
         .records(&[E, A])
-        .batches(&[&[E, E], &[A, E]])
+        // [e,a]: a batch whose SECOND record is refused (appended by the coverage audit)
+        .batches(&[&[E, E], &[A, E], &[E, A]])
         .remove_batch()
         .reopen()
         .depth(5, 6)));
@@ -861,6 +1095,206 @@ fn register_e1(reg: &mut zverif::Registry) {
     ));
 }
 
+/// Subjects added by the coverage audit (new names; the subjects above keep their alphabets, except for appended
+/// batches): operations of the inherent APIs that were not in any alphabet, wrapper stacks of depth 2, start states
+/// other than the empty store, configuration variants that were never instantiated, keys with special bytes.
+fn register_e1_audit(reg: &mut zverif::Registry) {
+    // MemoryBlobStore: clear() (resets the id counter: ids are handed out again), Clone, reserve + shrink_to_fit, flush
+    reg.add(Seq(
+        StoreSpec::new("MemoryBlobStore/clear+clone", |_| Ok(boxed(MemoryBlobStore::new())))
+            .records(&[E, ZZ, A64])
+            .removes(2)
+            .remove_batch()
+            .reopen()
+            .extras(&["Clear", "Clone", "ShrinkToFit", "Flush"])
+            .depth(4, 5),
+    ));
+    // start state other than the empty store: from_data with a gap in the ids and with id 0 in use
+    fn from_data_start() -> Vec<(u32, Vec<u8>)> {
+        vec![(0, AB.bytes()), (3, Vec::new()), (5, C300.bytes())]
+    }
+    reg.add(Seq(
+        StoreSpec::new("MemoryBlobStore[from_data{0,3,5}]", |_| Ok(boxed(MemoryBlobStore::from_data(from_data_start().into_iter().collect()))))
+            .records(&[E, ZZ, A64])
+            .remove_batch()
+            .reopen()
+            .extras(&["Clone"])
+            .start(from_data_start)
+            .depth(3, 4),
+    ));
+    reg.add(Seq(
+        StoreSpec::new("MemoryBlobStore[with_capacity(1)]", |_| Ok(boxed(MemoryBlobStore::with_capacity(1)))).records(&[E, A64]).removes(2).extras(&["ShrinkToFit"]).depth(4, 5),
+    ));
+
+    // wrapper stacks of depth 2 (the statement: "every store type, wrapper stack")
+    reg.add(Seq(
+        StoreSpec::new("ZstdBlobStore<ZstdBlobStore<Memory>>", |_| Ok(boxed(ZstdBlobStore::new(ZstdBlobStore::new(MemoryBlobStore::new(), 1), 3))))
+            .records(&[E, ZZ, A64, C300])
+            .remove_batch()
+            .reopen()
+            .depth(3, 4),
+    ));
+    reg.add(Seq(
+        StoreSpec::new("ZstdBlobStore<PlainBlobStore>", |dir| PlainBlobStore::create_new(dir).map(|p| boxed(ZstdBlobStore::new(p, 1))).map_err(|e| e.to_string()))
+            .records(&[E, A64])
+            .batches(&[&[ZZ, C300]])
+            .removes(2)
+            .remove_batch()
+            .reopen()
+            .depth(3, 4),
+    ));
+    reg.add(Seq(
+        StoreSpec::new("CachedBlobStore<ZstdBlobStore<Memory>>[WriteBack,cap=4096]", |_| {
+            let cfg = PageCacheConfig::balanced().with_capacity(4096);
+            CachedBlobStore::with_write_strategy(ZstdBlobStore::new(MemoryBlobStore::new(), 1), cfg, CacheWriteStrategy::WriteBack).map(boxed).map_err(|e| e.to_string())
+        })
+        .records(&[E, A64, P4000])
+        .batches(&[])
+        .extras(&["FlushCache"])
+        .depth(3, 4),
+    ));
+    for (iname, retrain) in [("", false), ("+retrain", true)] {
+        let mut sp = StoreSpec::new(&format!("HuffmanBlobStore<ZstdBlobStore<Memory>>[trained:abz]{iname}"), |_| {
+            let mut s = HuffmanBlobStore::new(ZstdBlobStore::new(MemoryBlobStore::new(), 1));
+            s.add_training_data(&[A64.bytes(), AB.bytes(), ZZ.bytes()].concat());
+            s.build_tree().map_err(|e| e.to_string())?;
+            Ok(boxed(s))
+        })
+        .records(&[E, A, ZZ, A64])
+        .batches(&[])
+        .depth(3, 4);
+        if retrain {
+            sp = sp.extras(&["Retrain"]);
+        }
+        reg.add(Seq(sp));
+    }
+    reg.add(Seq(
+        StoreSpec::new("ZstdBlobStore<HuffmanBlobStore<Memory>>[trained:abz]", |_| {
+            let mut s = HuffmanBlobStore::new(MemoryBlobStore::new());
+            s.add_training_data(&[A64.bytes(), AB.bytes(), ZZ.bytes()].concat());
+            s.build_tree().map_err(|e| e.to_string())?;
+            Ok(boxed(ZstdBlobStore::new(s, 1)))
+        })
+        .records(&[E, A, ZZ, A64])
+        .batches(&[])
+        .depth(3, 4),
+    ));
+
+    // HuffmanBlobStore: a tree over ONE symbol (the degenerate code), and re-training in the middle of a history
+    // (records stored before keep the tree they were encoded with)
+    reg.add(Seq(
+        StoreSpec::new("HuffmanBlobStore<Memory>[trained:a-only]", |_| {
+            let mut s = HuffmanBlobStore::new(MemoryBlobStore::new());
+            s.add_training_data(&A64.bytes());
+            s.build_tree().map_err(|e| e.to_string())?;
+            Ok(boxed(s))
+        })
+        .records(&[E, A, ZZ, A64])
+        .batches(&[])
+        .extras(&["Retrain"])
+        .depth(4, 5),
+    ));
+    reg.add(Seq(
+        StoreSpec::new("HuffmanBlobStore<Memory>[trained:abz]+retrain", |_| {
+            let mut s = HuffmanBlobStore::new(MemoryBlobStore::new());
+            s.add_training_data(&[A64.bytes(), AB.bytes(), ZZ.bytes()].concat());
+            s.build_tree().map_err(|e| e.to_string())?;
+            Ok(boxed(s))
+        })
+        .records(&[A, ZZ, A64])
+        .batches(&[])
+        .extras(&["Retrain"])
+        .depth(4, 5),
+    ));
+    reg.add(Seq(
+        StoreSpec::new("HuffmanBlobStore<Memory>[untrained]+retrain", |_| Ok(boxed(HuffmanBlobStore::new(MemoryBlobStore::new()))))
+            .records(&[A, ZZ, A64])
+            .batches(&[])
+            .extras(&["Retrain"])
+            .depth(4, 5),
+    ));
+
+    // CachedBlobStore: the switches of the inherent API in the middle of a history
+    reg.add(Seq(
+        StoreSpec::new("CachedBlobStore<Memory>[WriteThrough,cap=4096]/switches", |_| cached(CacheWriteStrategy::WriteThrough, 4096))
+            .records(&[ZZ, P4000])
+            .batches(&[])
+            .removes(2)
+            .extras(&["DisableCache", "EnableCache", "SetWriteBack", "SetWriteAround", "FlushCache", "Prefetch"])
+            .depth(4, 5),
+    ));
+
+    // NestLoudsTrieBlobStore: special keys (empty key, two keys that share a prefix through a NUL byte, 0xff, a key
+    // longer than every max_path_length), finalize() in the middle of a history, the preset that was never instantiated
+    reg.add(Seq(
+        StoreSpec::new("NestLoudsTrieBlobStore[default]/special_keys", |_| Trie::new(TrieBlobStoreConfig::default()).map(boxed).map_err(|e| e.to_string()))
+            .records(&[E])
+            .batches(&[])
+            .keyed_set(&[3, 4, 5, 6, 0, 7], &[AB, ZZ])
+            .removes(2)
+            .depth(3, 4),
+    ));
+    reg.add(Seq(
+        StoreSpec::new("NestLoudsTrieBlobStore[security_optimized]/special_keys", |_| Trie::new(TrieBlobStoreConfig::security_optimized()).map(boxed).map_err(|e| e.to_string()))
+            .records(&[])
+            .batches(&[])
+            .keyed_set(&[3, 4, 5, 6, 7], &[AB])
+            .removes(2)
+            .depth(3, 4),
+    ));
+    reg.add(Seq(
+        StoreSpec::new("NestLoudsTrieBlobStore[default]/finalize", |_| Trie::new(TrieBlobStoreConfig::default()).map(boxed).map_err(|e| e.to_string()))
+            .records(&[E, A64])
+            .batches(&[&[AB, ZZ]])
+            .keyed(2, &[AB, ZZ])
+            .removes(2)
+            .remove_batch()
+            .extras(&["Finalize", "Flush"])
+            .depth(4, 4),
+    ));
+    reg.add(Seq(
+        StoreSpec::new("NestLoudsTrieBlobStore[performance_optimized]", |_| Trie::new(TrieBlobStoreConfig::performance_optimized()).map(boxed).map_err(|e| e.to_string()))
+            .records(&[E, A64])
+            .batches(&[&[AB, ZZ]])
+            .keyed(3, &[AB, ZZ])
+            .remove_batch()
+            .depth(3, 4),
+    ));
+    // key cache of ONE entry (the eviction branch of put_with_key) and no cache at all
+    for kc in [0usize, 1] {
+        reg.add(Seq(
+            StoreSpec::new(&format!("NestLoudsTrieBlobStore[default,key_cache_size={kc}]"), move |_| {
+                Trie::new(TrieBlobStoreConfig { key_cache_size: kc, ..TrieBlobStoreConfig::default() }).map(boxed).map_err(|e| e.to_string())
+            })
+            .records(&[A64])
+            .batches(&[])
+            .keyed(3, &[AB, ZZ])
+            .removes(2)
+            .depth(3, 4),
+        ));
+    }
+
+    // DictZipBlobStore: the interleave factors and the entropy/interleave combination that were never instantiated,
+    // optimize() in the middle of a history
+    for (ename, e, il) in [("HuffmanO1,ratio=1.0,x2", DzEntropy::HuffmanO1, 2u8), ("HuffmanO1,ratio=1.0,x8", DzEntropy::HuffmanO1, 8), ("Fse,ratio=1.0,x4", DzEntropy::Fse, 4)] {
+        reg.add(Seq(
+            StoreSpec::new(&format!("DictZipBlobStore[entropy={ename},cache=1]"), move |_| dictzip(e, il, 1.0, 1024, 2))
+                .records(&[ZZ, A64, C300])
+                .batches(&[])
+                .removes(1)
+                .depth(2, 3),
+        ));
+    }
+    reg.add(Seq(
+        StoreSpec::new("DictZipBlobStore[entropy=None,cache=1]/optimize", |_| dictzip(DzEntropy::None, 0, 0.8, 1024, 2))
+            .records(&[ZZ, C300])
+            .batches(&[&[A64, E]])
+            .removes(2)
+            .extras(&["Optimize"])
+            .depth(3, 3),
+    ));
+}
+
 // ---------------------------------------------------------------------------------------------
 // E2 — bulk builders
 
@@ -873,6 +1307,16 @@ pub enum ListSpec {
 }
 
 const PATTERN_KINDS: [&str; 5] = ["varlen", "fixed8", "mixed", "empty", "big"];
+/// pattern kinds appended by the coverage audit, enumerated for the lengths `AUDIT_PATTERN_LENGTHS` only:
+/// * `kilo1040` — every record 1040 bytes: with 64 records per offset block the last in-block delta is 63*1040 =
+///   65520 (just below 2^16 = the default offset_width); 4 checksum bytes per record or 128-record blocks push it over,
+///   so the same list is accepted by some builder configurations and refused (skipped) by others;
+/// * `kilo1041` — 1041 bytes: 63*1041 = 65583, over the limit for every uncompressed 64-block configuration;
+/// * `large` — mostly 20-byte records, record 10 of every 64 has 5000 bytes (> the 4096-byte copy threshold), the last
+///   record of every 64-block has 70 000 bytes (> 64 KiB: block samples beyond 16 bits, one record > one chunk);
+/// * `dup` — four distinct records repeated (deduplication in SimpleZip, equal neighbours in the offset index).
+const AUDIT_PATTERN_KINDS: [&str; 4] = ["kilo1040", "kilo1041", "large", "dup"];
+const AUDIT_PATTERN_LENGTHS: [usize; 4] = [63, 64, 65, 129];
 const PATTERN_LENGTHS: [usize; 10] = [63, 64, 65, 127, 128, 129, 255, 256, 257, 1000];
 
 fn pattern_record(kind: &str, i: usize) -> Vec<u8> {
@@ -883,6 +1327,23 @@ fn pattern_record(kind: &str, i: usize) -> Vec<u8> {
         // mostly 4 bytes, every 5th record 0..2 bytes, every 11th 9 bytes
         "mixed" => fill(if i % 11 == 10 { 9 } else if i % 5 == 4 { i % 3 } else { 4 }),
         "empty" => Vec::new(),
+        "kilo1040" => fill(1040),
+        "kilo1041" => fill(1041),
+        "large" => {
+            if i % 64 == 63 {
+                (0..70_000usize).map(|j| ((i * 31 + j * 7 + (j >> 8)) % 253) as u8).collect()
+            } else if i % 64 == 10 {
+                fill(5000)
+            } else {
+                fill(20)
+            }
+        }
+        "dup" => match i % 4 {
+            0 => b"same record\n".to_vec(),
+            1 => Vec::new(),
+            2 => b"same record\n".to_vec(),
+            _ => vec![b'a'; 9],
+        },
         // small text-like records with delimiters, every 50th record 300 bytes, every 64th 70 x 'a'
         _ => {
             if i % 50 == 49 {
@@ -928,6 +1389,13 @@ fn for_lists(tier: Tier, small_max: usize, patterns: bool, f: &mut dyn FnMut(Lis
                 if tier == Tier::Quick && n == 1000 && kind != "varlen" && kind != "big" {
                     continue;
                 }
+                if !f(ListSpec::Pattern { kind: kind.to_string(), n }) {
+                    return false;
+                }
+            }
+        }
+        for kind in AUDIT_PATTERN_KINDS {
+            for &n in &AUDIT_PATTERN_LENGTHS {
                 if !f(ListSpec::Pattern { kind: kind.to_string(), n }) {
                     return false;
                 }
@@ -1032,7 +1500,7 @@ impl EnumSpec for BulkSpec {
             self.variants,
             tier.pick(self.small_max.0, self.small_max.1),
             REC_NAMES,
-            if self.patterns { format!(" ∪ G: patterned lists {:?} x lengths {:?} (quick: n=1000 only for varlen/big)", PATTERN_KINDS, PATTERN_LENGTHS) } else { String::new() },
+            if self.patterns { format!(" ∪ G: patterned lists {:?} x lengths {:?} (quick: n=1000 only for varlen/big) ∪ {:?} x lengths {:?} (1040/1041-byte records: last in-block offset delta just below / above 2^16; 5000- and 70000-byte records; repeated records)", PATTERN_KINDS, PATTERN_LENGTHS, AUDIT_PATTERN_KINDS, AUDIT_PATTERN_LENGTHS) } else { String::new() },
             self.space_note
         )
     }
@@ -1053,15 +1521,46 @@ impl EnumSpec for BulkSpec {
 }
 
 fn zo_config(variant: &str) -> R<ZipOffsetBlobStoreConfig> {
-    // "c<level>/k<checksum>/b<log2 block units>"
+    // "c<level>/k<checksum>/b<log2 block units>" or "preset:<name>" (the four constructors of the config type)
+    // optional parts: "nosimd" (enable_simd = false), "w<offset width>-<sample width>", "add_records" (see build_zip_offset)
     let mut cfg = ZipOffsetBlobStoreConfig::default();
     for part in variant.split('/') {
+        match part {
+            "preset:default" => {
+                cfg = ZipOffsetBlobStoreConfig::default();
+                continue;
+            }
+            "preset:performance_optimized" => {
+                cfg = ZipOffsetBlobStoreConfig::performance_optimized();
+                continue;
+            }
+            "preset:compression_optimized" => {
+                cfg = ZipOffsetBlobStoreConfig::compression_optimized();
+                continue;
+            }
+            "preset:security_optimized" => {
+                cfg = ZipOffsetBlobStoreConfig::security_optimized();
+                continue;
+            }
+            "nosimd" => {
+                cfg.enable_simd = false;
+                continue;
+            }
+            "add_records" => continue,
+            _ => {}
+        }
+        if let Some(w) = part.strip_prefix('w') {
+            let (ow, sw) = w.split_once('-').ok_or_else(|| format!("bad variant {variant}"))?;
+            cfg.offset_config.offset_width = ow.parse().map_err(|_| format!("bad variant {variant}"))?;
+            cfg.offset_config.sample_width = sw.parse().map_err(|_| format!("bad variant {variant}"))?;
+            continue;
+        }
         let (h, t) = part.split_at(1);
         let x: u8 = t.parse().map_err(|_| format!("bad variant {variant}"))?;
         match h {
             "c" => cfg.compress_level = x,
             "k" => cfg.checksum_level = x,
-            "b" => cfg.offset_config = SortedUintVecConfig { log2_block_units: x, ..SortedUintVecConfig::default() },
+            "b" => cfg.offset_config = SortedUintVecConfig { log2_block_units: x, ..cfg.offset_config },
             "n" => {}
             _ => return Err(format!("bad variant {variant}")),
         }
@@ -1072,8 +1571,14 @@ fn zo_config(variant: &str) -> R<ZipOffsetBlobStoreConfig> {
 fn build_zip_offset(variant: &str, data: &[Vec<u8>]) -> R<Built> {
     let mut b = ZipOffsetBlobStoreBuilder::with_config(zo_config(variant)?).map_err(|e| e.to_string())?;
     let mut ids = Vec::new();
-    for d in data {
-        ids.push(b.add_record(d).map_err(|e| e.to_string())?);
+    if variant.ends_with("/add_records") {
+        // the bulk entry point of the builder, after a reserve()
+        b.reserve(data.len()).map_err(|e| e.to_string())?;
+        ids = b.add_records(data.iter()).map_err(|e| e.to_string())?;
+    } else {
+        for d in data {
+            ids.push(b.add_record(d).map_err(|e| e.to_string())?);
+        }
     }
     let s = b.finish().map_err(|e| e.to_string())?;
     Ok(Built { store: boxed(s), ids: Some(ids), keys: None, may_reorder: false })
@@ -1096,6 +1601,9 @@ fn build_simple_zip(variant: &str, data: &[Vec<u8>]) -> R<Built> {
         "default" => SimpleZipConfig::default(),
         "frag1-2" => SimpleZipConfig { min_frag_len: 1, max_frag_len: 2, delimiters: vec![b'a'] },
         "frag2-4/delim=a,space" => SimpleZipConfig { min_frag_len: 2, max_frag_len: 4, delimiters: vec![b'a', b' '] },
+        // min == max (no room for a delimiter search) and fragments longer than most records, no delimiters at all
+        "frag3-3" => SimpleZipConfig { min_frag_len: 3, max_frag_len: 3, delimiters: vec![b'\n'] },
+        "frag8-1024/delim=none" => SimpleZipConfig { min_frag_len: 8, max_frag_len: 1024, delimiters: vec![] },
         _ => return Err(format!("bad variant {variant}")),
     };
     let s = SimpleZipBlobStore::build_from(data, &cfg).map_err(|e| e.to_string())?;
@@ -1137,6 +1645,8 @@ fn build_trie(variant: &str, data: &[Vec<u8>]) -> R<Built> {
         "builder[memory_optimized]/unsorted_keys" => ("builder_mem", false),
         "build_from_key_value_pairs[default]/unsorted_keys" => ("pairs", false),
         "build_from_key_value_pairs[enable_statistics]/unsorted_keys" => ("pairs_stats", false),
+        "builder[default]/add_batch+finish_with_progress/unsorted_keys" => ("builder_batch_progress", false),
+        "put_batch_with_keys[default]/unsorted_keys" => ("put_batch_with_keys", false),
         _ => return Err(format!("bad variant {variant}")),
     };
     let keys: Vec<Vec<u8>> = (0..data.len()).map(|i| trie_key(i, keys_sorted)).collect();
@@ -1148,6 +1658,22 @@ fn build_trie(variant: &str, data: &[Vec<u8>]) -> R<Built> {
                 cfg.enable_statistics = true;
             }
             (Trie::build_from_key_value_pairs(&pairs, &cfg).map_err(|e| e.to_string())?, false)
+        }
+        "put_batch_with_keys" => {
+            let pairs: Vec<(Vec<u8>, Vec<u8>)> = keys.iter().cloned().zip(data.iter().cloned()).collect();
+            let mut s = Trie::new(TrieBlobStoreConfig::default()).map_err(|e| e.to_string())?;
+            let ids = s.put_batch_with_keys(pairs).map_err(|e| e.to_string())?;
+            return Ok(Built { store: boxed(s), ids: Some(ids), keys: Some(keys), may_reorder: false });
+        }
+        "builder_batch_progress" => {
+            let cfg = TrieBlobStoreConfig::default();
+            let reorders = cfg.enable_batch_optimization;
+            let mut b = NestLoudsTrieBlobStoreBuilder::<RankSelectInterleaved256>::new(cfg).map_err(|e| e.to_string())?;
+            b.reserve(data.len());
+            b.add_batch(keys.iter().cloned().zip(data.iter().cloned())).map_err(|e| e.to_string())?;
+            let mut calls = 0usize;
+            let s = b.finish_with_progress(|_, _| calls += 1).map_err(|e| e.to_string())?;
+            (s, reorders)
         }
         _ => {
             let cfg = if how == "builder_mem" { TrieBlobStoreConfig::memory_optimized() } else { TrieBlobStoreConfig::default() };
@@ -1174,12 +1700,24 @@ impl EnumSpec for ZipOffsetSaveLoad {
     }
     fn space(&self, tier: Tier) -> String {
         format!(
-            "variants c{{0,3}}/k{{0,2}}/b6 x (all record lists of length <= {} over R ∪ patterned lists); oracle: load_from_reader(save_to_writer(s)) answers get/contains/size/len like s on ids 0..=n+1 (s itself is judged by the builder subject)",
+            "variants c{{0,3}}/k{{0,2}}/b6, c0/k0/b7, c0/k1/b4/w20-40, c0/k3/b8/w32-64 and the three non-default presets x (all record lists of length <= {} over R ∪ patterned lists); oracle: load_from_reader(save_to_writer(s)) answers get/contains/size/len like s on ids 0..=n+1 (s itself is judged by the builder subject)",
             tier.pick(2, 3)
         )
     }
     fn cases(&self, tier: Tier, f: &mut dyn FnMut(BulkCase) -> bool) {
-        for v in ["c0/k0/b6", "c0/k2/b6", "c3/k0/b6", "c3/k2/b6"] {
+        // the last six were appended by the coverage audit: the header must carry block size and BOTH index widths
+        for v in [
+            "c0/k0/b6",
+            "c0/k2/b6",
+            "c3/k0/b6",
+            "c3/k2/b6",
+            "c0/k0/b7",
+            "c0/k1/b4/w20-40",
+            "c0/k3/b8/w32-64",
+            "preset:performance_optimized",
+            "preset:compression_optimized",
+            "preset:security_optimized",
+        ] {
             if !for_lists(tier, tier.pick(2, 3), true, &mut |l| f(BulkCase { variant: v.to_string(), list: l })) {
                 return;
             }
@@ -1249,6 +1787,23 @@ fn register_e2(reg: &mut zverif::Registry) {
             }
         }
     }
+    // appended by the coverage audit: the three other presets of the config type (non-default offset/sample widths, 128
+    // records per block, enable_simd = false), the extreme block sizes, tiny and maximal index widths, the bulk entry point
+    for v in [
+        "preset:performance_optimized",
+        "preset:compression_optimized",
+        "preset:security_optimized",
+        "c0/k2/b6/nosimd",
+        "c0/k2/b6/add_records",
+        "c0/k0/b4",
+        "c0/k0/b8",
+        "c0/k0/b6/w8-16",
+        "c0/k3/b6/w32-64",
+        "c3/k3/b5/w12-24",
+        "c0/k0/b6/w9-17",
+    ] {
+        zo.push(v.to_string());
+    }
     reg.add(Enum(BulkSpec {
         name: "ZipOffsetBlobStoreBuilder".into(),
         variants: zo,
@@ -1259,7 +1814,18 @@ fn register_e2(reg: &mut zverif::Registry) {
     }));
     reg.add(Enum(BulkSpec {
         name: "BatchZipOffsetBlobStoreBuilder".into(),
-        variants: vec!["c0/k0/b6/n1".into(), "c0/k2/b6/n4".into(), "c3/k2/b7/n4".into()],
+        variants: vec![
+            "c0/k0/b6/n1".into(),
+            "c0/k2/b6/n4".into(),
+            "c3/k2/b7/n4".into(),
+            // appended by the coverage audit: batch sizes that do not divide the list lengths, one larger than a block, 0
+            "c0/k0/b6/n2".into(),
+            "c0/k0/b6/n3".into(),
+            "c0/k0/b6/n8".into(),
+            "c0/k0/b6/n100".into(),
+            "c0/k2/b6/n0".into(),
+            "preset:performance_optimized/n64".into(),
+        ],
         small_max: (2, 3),
         patterns: true,
         build: build_zip_offset_batch,
@@ -1267,7 +1833,7 @@ fn register_e2(reg: &mut zverif::Registry) {
     }));
     reg.add(Enum(BulkSpec {
         name: "SimpleZipBlobStore::build_from".into(),
-        variants: vec!["default".into(), "frag1-2".into(), "frag2-4/delim=a,space".into()],
+        variants: vec!["default".into(), "frag1-2".into(), "frag2-4/delim=a,space".into(), "frag3-3".into(), "frag8-1024/delim=none".into()],
         small_max: (3, 4),
         patterns: true,
         build: build_simple_zip,
@@ -1284,6 +1850,10 @@ fn register_e2(reg: &mut zverif::Registry) {
             "fixed_len=8".into(),
             "fixed_len=64".into(),
             "fixed_len=5".into(),
+            // appended by the coverage audit: the record lengths of the audit patterns (all / most records fixed)
+            "fixed_len=1040".into(),
+            "fixed_len=20".into(),
+            "fixed_len=70000".into(),
         ],
         small_max: (3, 4),
         patterns: true,
@@ -1302,7 +1872,13 @@ fn register_e2(reg: &mut zverif::Registry) {
         // the config decides whether len() works at all (it is read from the optional statistics): one subject per setting
         (
             "NestLoudsTrieBlobStore/bulk[statistics=on]",
-            vec!["builder[default]/sorted_keys", "builder[default]/unsorted_keys", "build_from_key_value_pairs[enable_statistics]/unsorted_keys"],
+            vec![
+                "builder[default]/sorted_keys",
+                "builder[default]/unsorted_keys",
+                "build_from_key_value_pairs[enable_statistics]/unsorted_keys",
+                "builder[default]/add_batch+finish_with_progress/unsorted_keys",
+                "put_batch_with_keys[default]/unsorted_keys",
+            ],
         ),
         ("NestLoudsTrieBlobStore/bulk[statistics=off]", vec!["builder[memory_optimized]/unsorted_keys", "build_from_key_value_pairs[default]/unsorted_keys"]),
     ] {
@@ -1318,9 +1894,232 @@ fn register_e2(reg: &mut zverif::Registry) {
     reg.add(Enum(ZipOffsetSaveLoad));
 }
 
+// ---------------------------------------------------------------------------------------------
+// E1 — builder histories: the incremental builders have state of their own (pending batch, counters, the order of
+// entries) that the bulk subjects only ever drive as add ... add, finish.  Here every sequence of builder calls is a
+// history; after EVERY step: the id returned by add_record is the insertion index, len()/is_empty() count the records
+// added, and a builder driven by the same calls and finished yields a store with exactly those records under those ids.
+
+#[derive(Clone, PartialEq, Eq)]
+pub enum BOp {
+    Add(Rec),
+    /// BatchZipOffsetBlobStoreBuilder::flush_batch by hand
+    FlushBatch,
+    /// ZipOffsetBlobStoreBuilder::add_records of two records
+    AddRecords(Rec, Rec),
+    /// ZipOffsetBlobStoreBuilder::reserve(3)
+    Reserve,
+    /// trie builder: add_batch of two entries
+    AddBatch(Rec, Rec),
+    /// trie builder: sort_entries
+    SortEntries,
+}
+
+impl fmt::Debug for BOp {
+    fn fmt(&self, f: &mut fmt::Formatter<'_>) -> fmt::Result {
+        match self {
+            BOp::Add(r) => write!(f, "Add({:?})", r),
+            BOp::FlushBatch => write!(f, "FlushBatch"),
+            BOp::AddRecords(a, b) => write!(f, "AddRecords({:?},{:?})", a, b),
+            BOp::Reserve => write!(f, "Reserve"),
+            BOp::AddBatch(a, b) => write!(f, "AddBatch({:?},{:?})", a, b),
+            BOp::SortEntries => write!(f, "SortEntries"),
+        }
+    }
+}
+
+#[derive(Clone, Copy, PartialEq, Eq, Debug)]
+pub enum BKind {
+    Batch(usize),
+    Plain,
+    /// NestLoudsTrieBlobStoreBuilder; true = memory_optimized-like config without batch optimisation (insertion order kept)
+    Trie(bool),
+}
+
+pub enum LiveBuilder {
+    Batch(BatchZipOffsetBlobStoreBuilder),
+    Plain(ZipOffsetBlobStoreBuilder),
+    Trie(NestLoudsTrieBlobStoreBuilder<RankSelectInterleaved256>),
+}
+
+pub struct BuilderHist {
+    pub name: String,
+    pub kind: BKind,
+    /// ZipOffset configuration, see `zo_config`
+    pub variant: &'static str,
+    pub records: Vec<Rec>,
+    pub depth: (usize, usize),
+}
+
+pub struct BSt {
+    live: LiveBuilder,
+    script: Vec<BOp>,
+    /// records added so far, in insertion order
+    model: Vec<Vec<u8>>,
+}
+
+impl BuilderHist {
+    fn fresh(&self) -> R<LiveBuilder> {
+        Ok(match self.kind {
+            BKind::Batch(n) => LiveBuilder::Batch(BatchZipOffsetBlobStoreBuilder::with_config(zo_config(self.variant)?, n).map_err(|e| e.to_string())?),
+            BKind::Plain => LiveBuilder::Plain(ZipOffsetBlobStoreBuilder::with_config(zo_config(self.variant)?).map_err(|e| e.to_string())?),
+            BKind::Trie(keep_order) => {
+                let cfg = if keep_order { TrieBlobStoreConfig { enable_batch_optimization: false, ..TrieBlobStoreConfig::default() } } else { TrieBlobStoreConfig::default() };
+                LiveBuilder::Trie(NestLoudsTrieBlobStoreBuilder::new(cfg).map_err(|e| e.to_string())?)
+            }
+        })
+    }
+    /// apply one call to a builder; `n` = number of records added before it.  Returns the ids handed out (where the
+    /// builder hands out ids) or Err = refused.
+    fn step(b: &mut LiveBuilder, op: &BOp, n: usize) -> R<Option<Vec<u32>>> {
+        match (b, op) {
+            (LiveBuilder::Batch(b), BOp::Add(r)) => b.add_record(&r.bytes()).map(|id| Some(vec![id])).map_err(|e| e.to_string()),
+            (LiveBuilder::Batch(b), BOp::FlushBatch) => b.flush_batch().map(|_| None).map_err(|e| e.to_string()),
+            (LiveBuilder::Plain(b), BOp::Add(r)) => b.add_record(&r.bytes()).map(|id| Some(vec![id])).map_err(|e| e.to_string()),
+            (LiveBuilder::Plain(b), BOp::AddRecords(x, y)) => b.add_records([x.bytes(), y.bytes()]).map(Some).map_err(|e| e.to_string()),
+            (LiveBuilder::Plain(b), BOp::Reserve) => b.reserve(3).map(|_| None).map_err(|e| e.to_string()),
+            (LiveBuilder::Trie(b), BOp::Add(r)) => b.add(&trie_key(n, false), &r.bytes()).map(|_| None).map_err(|e| e.to_string()),
+            (LiveBuilder::Trie(b), BOp::AddBatch(x, y)) => b.add_batch(vec![(trie_key(n, false), x.bytes()), (trie_key(n + 1, false), y.bytes())]).map(|_| None).map_err(|e| e.to_string()),
+            (LiveBuilder::Trie(b), BOp::SortEntries) => {
+                b.sort_entries();
+                Ok(None)
+            }
+            _ => Err("operation not offered by this builder".into()),
+        }
+    }
+    fn added(op: &BOp) -> Vec<Vec<u8>> {
+        match op {
+            BOp::Add(r) => vec![r.bytes()],
+            BOp::AddRecords(a, b) | BOp::AddBatch(a, b) => vec![a.bytes(), b.bytes()],
+            _ => vec![],
+        }
+    }
+    fn len_of(b: &LiveBuilder) -> (usize, bool) {
+        match b {
+            LiveBuilder::Batch(b) => (b.len(), b.is_empty()),
+            LiveBuilder::Plain(b) => (b.len(), b.is_empty()),
+            LiveBuilder::Trie(b) => (b.len(), b.is_empty()),
+        }
+    }
+}
+
+impl SeqSpec for BuilderHist {
+    type Op = BOp;
+    type St = BSt;
+    fn name(&self) -> String {
+        self.name.clone()
+    }
+    fn depth(&self, tier: Tier) -> usize {
+        tier.pick(self.depth.0, self.depth.1)
+    }
+    fn bound(&self, tier: Tier) -> String {
+        format!(
+            "all sequences of <= {} builder calls from {{add(r) r in {:?}{}}} on {:?} (config {}); after every step: the ids returned are the insertion indices, len()/is_empty() == records added, and the same calls on a second builder followed by finish() give a store with len == n and record i == the i-th record added (get, contains, size, get_batch, iter_ids; ids n, n+1, u32::MAX absent{})",
+            self.depth(tier),
+            self.records,
+            match self.kind {
+                BKind::Batch(_) => "; flush_batch()",
+                BKind::Plain => "; add_records([ab,e]); reserve(3)",
+                BKind::Trie(_) => "; add_batch([ab,e]); sort_entries()",
+            },
+            self.kind,
+            self.variant,
+            if matches!(self.kind, BKind::Trie(_)) { "; keyed builder: record i is added under a unique key, get_by_key pins record <-> key, ids are judged as a permutation where the builder sorts" } else { "" }
+        )
+    }
+    fn init(&self, _scratch: &Path) -> Result<BSt, Fail> {
+        Ok(BSt { live: self.fresh().map_err(|e| Fail::new("construct", e))?, script: Vec::new(), model: Vec::new() })
+    }
+    fn ops(&self, _st: &BSt) -> Vec<BOp> {
+        let mut v: Vec<BOp> = self.records.iter().map(|r| BOp::Add(*r)).collect();
+        match self.kind {
+            BKind::Batch(_) => v.push(BOp::FlushBatch),
+            BKind::Plain => {
+                v.push(BOp::AddRecords(AB, E));
+                v.push(BOp::Reserve);
+            }
+            BKind::Trie(_) => {
+                v.push(BOp::AddBatch(AB, E));
+                v.push(BOp::SortEntries);
+            }
+        }
+        v
+    }
+    fn apply(&self, st: &mut BSt, op: &BOp) -> Result<(), Fail> {
+        let n = st.model.len();
+        match BuilderHist::step(&mut st.live, op, n) {
+            Err(_) => {} // refused: nothing may have changed (the observers check the counters)
+            Ok(ids) => {
+                let added = BuilderHist::added(op);
+                if let Some(ids) = ids {
+                    let want: Vec<u32> = (n as u32..(n + added.len()) as u32).collect();
+                    if ids != want {
+                        return Err(failc("builder_id", "not_insertion_index", format!("{:?} returned ids {:?}, {} records were added before: expected {:?}", op, ids, n, want)));
+                    }
+                }
+                st.model.extend(added);
+                st.script.push(op.clone());
+            }
+        }
+        Ok(())
+    }
+    fn observe(&self, st: &mut BSt, h: &mut DefaultHasher) -> Result<(), Fail> {
+        st.script.iter().map(|o| format!("{:?}", o)).collect::<Vec<_>>().hash(h);
+        let n = st.model.len();
+        let (l, e) = BuilderHist::len_of(&st.live);
+        if l != n {
+            return Err(failc("builder_len", if l < n { "short" } else { "long" }, format!("builder.len() = {l}, {n} records were added")));
+        }
+        if e != (n == 0) {
+            return Err(failc("builder_len", "is_empty", format!("builder.is_empty() = {e}, {n} records were added")));
+        }
+        // the same calls on a second builder, then finish()
+        let mut b2 = self.fresh().map_err(|e| Fail::new("construct", e))?;
+        let mut k = 0usize;
+        let mut sorted = false;
+        for op in &st.script {
+            if BuilderHist::step(&mut b2, op, k).is_err() {
+                return Err(Fail::new("harness", format!("replaying {:?} on a second builder was refused", op)));
+            }
+            k += BuilderHist::added(op).len();
+            sorted |= *op == BOp::SortEntries;
+        }
+        let built = match b2 {
+            LiveBuilder::Batch(b) => b.finish().map(|s| Built { store: boxed(s), ids: None, keys: None, may_reorder: false }),
+            LiveBuilder::Plain(b) => b.finish().map(|s| Built { store: boxed(s), ids: None, keys: None, may_reorder: false }),
+            LiveBuilder::Trie(b) => {
+                let keep_order = matches!(self.kind, BKind::Trie(true)) && !sorted;
+                b.finish().map(|s| Built { store: boxed(s), ids: None, keys: Some((0..n).map(|i| trie_key(i, false)).collect()), may_reorder: !keep_order })
+            }
+        };
+        match built {
+            // finish refused (e.g. the offset index cannot hold the content): nothing to judge
+            Err(_) => Ok(()),
+            Ok(mut b) => match judge_bulk(&mut b, &st.model, String::new()) {
+                Outcome::Fail(f) => Err(f),
+                _ => Ok(()),
+            },
+        }
+    }
+}
+
+fn register_builder_histories(reg: &mut zverif::Registry) {
+    for n in [1usize, 2, 3, 8] {
+        reg.add(Seq(BuilderHist { name: format!("BatchZipOffsetBlobStoreBuilder/history[batch={n},c0/k0/b6]"), kind: BKind::Batch(n), variant: "c0/k0/b6", records: vec![E, AB, P4000], depth: (5, 7) }));
+    }
+    reg.add(Seq(BuilderHist { name: "BatchZipOffsetBlobStoreBuilder/history[batch=2,c3/k2/b6]".into(), kind: BKind::Batch(2), variant: "c3/k2/b6", records: vec![E, AB, C300], depth: (4, 6) }));
+    reg.add(Seq(BuilderHist { name: "BatchZipOffsetBlobStoreBuilder/history[batch=0,c0/k2/b6]".into(), kind: BKind::Batch(0), variant: "c0/k2/b6", records: vec![E, AB], depth: (4, 6) }));
+    reg.add(Seq(BuilderHist { name: "ZipOffsetBlobStoreBuilder/history[c0/k2/b6]".into(), kind: BKind::Plain, variant: "c0/k2/b6", records: vec![E, AB, P4000], depth: (4, 6) }));
+    reg.add(Seq(BuilderHist { name: "ZipOffsetBlobStoreBuilder/history[c3/k0/b6]".into(), kind: BKind::Plain, variant: "c3/k0/b6", records: vec![E, AB, C300], depth: (3, 5) }));
+    reg.add(Seq(BuilderHist { name: "NestLoudsTrieBlobStoreBuilder/history[default]".into(), kind: BKind::Trie(false), variant: "-", records: vec![E, AB, ZZ], depth: (3, 5) }));
+    reg.add(Seq(BuilderHist { name: "NestLoudsTrieBlobStoreBuilder/history[insertion_order]".into(), kind: BKind::Trie(true), variant: "-", records: vec![E, AB, ZZ], depth: (3, 5) }));
+}
+
 fn main() {
     zverif::main_with("C03", |reg, _tier| {
         register_e1(reg);
         register_e2(reg);
+        register_e1_audit(reg);
+        register_builder_histories(reg);
     });
 }
